@@ -13,6 +13,7 @@
 #include "cts_types.h"
 //@LIFT consts
 #include "word.h"
+//@LIFT census
 
 static struct thread_state any_word(void) { struct thread_state w; w.state_ = nondet_i64(); return w; }
 
